@@ -14,7 +14,7 @@ git -C /repo worktree remove --force $W 2>/dev/null
 git -C /repo worktree add -q --detach $W HEAD || exit 2
 cd $W
 PKG=$(grep '^+++ b/' $DST/patch.diff | sed 's|+++ b/||' | xargs -n1 dirname | sort -u | head -1)
-DEMO=$(ls $DST/*_test.go 2>/dev/null | head -1)
+DEMO=$(ls $DST/zz_seed_demo_test.go $DST/*_test.go 2>/dev/null | head -1)
 DPKG=$PKG
 if [ -n "$DEMO" ]; then
   dp=$(grep -m1 '^package ' $DEMO | awk '{print $2}')
